@@ -58,7 +58,7 @@ var rewrites = map[string]map[string]string{
 		"Open": "Open", "Create": "Create", "OpenFile": "OpenFile", "CreateTemp": "CreateTemp",
 		"MkdirTemp": "MkdirTemp", "Args": "Args()", "File": "File", "Symlink": "Symlink", "Readlink": "Readlink", "Link": "Link", "SameFile": "SameFile", "UserCacheDir": "UserCacheDir", "UserConfigDir": "UserConfigDir",
 	},
-	"path/filepath": {"Abs": "Abs", "EvalSymlinks": "EvalSymlinks"},
+	"path/filepath": {"Abs": "Abs", "EvalSymlinks": "EvalSymlinks", "Glob": "Glob", "WalkDir": "WalkDir", "Walk": "Walk"},
 	"os/exec":       {"LookPath": "LookPath"},
 	"io/ioutil":     {"ReadFile": "ReadFile", "WriteFile": "WriteFile", "TempFile": "CreateTemp", "TempDir": "MkdirTemp"},
 	"time":          {"Now": "Now", "Since": "Since"},
@@ -79,7 +79,6 @@ var keepalive = map[string]string{
 // selectors that touch the environment but have no seam: reported.
 var unsim = map[string][]string{
 	"os":            {"Chown", "Lchown", "Chtimes", "DirFS", "CopyFS", "StartProcess", "Pipe", "NewFile", "FindProcess", "Getppid", "Getuid", "Setenv", "Unsetenv", "Clearenv", "ReadLink"},
-	"path/filepath": {"Walk", "WalkDir", "Glob"},
 	"time":          {"Sleep", "After", "Tick", "NewTimer", "NewTicker", "AfterFunc", "Until"},
 	"reflect":       {"MapRange", "MapKeys"},
 	"io/ioutil":     {"ReadDir", "ReadAll"},
